@@ -31,6 +31,11 @@ import (
 // received is demultiplexed by the independent readers of harness/proj (TS/PES/PSI, Annex-B,
 // ADTS, RTP payload formats) and projected to (unit id, offset, length) records; the decision is
 // taken by spec/Trace_RemuxOut.tla.
+//
+// C16 (start-clean clause, cfg.rep): the same Group outlives its publisher.  "PubLeave" removes the publisher
+// (Group.DelRtmpPubSession), "PubArrive" adds the next one with its own tracks (Group.AddRtmpPubSession); HTTP-TS
+// subscribers stay attached or join in between, the HLS segments listed for each epoch are read when its
+// publisher leaves, one RTSP subscriber joins per epoch.  Decided by spec/Trace_Republish.tla.
 
 type roNal struct {
 	T  string `json:"t"` // aud sps pps vps sei idr slice
@@ -51,10 +56,14 @@ type roMsg struct {
 }
 
 type roStep struct {
-	Name string `json:"name"` // Join | Pub | End
+	Name string `json:"name"` // Join | JoinRtsp | Pub | End | PubLeave | PubArrive
 	C    string `json:"c"`
 	M    *roMsg `json:"m"`
 	Ts   uint32 `json:"ts"`
+	// PubArrive (C16, republish epochs): the tracks of the next publisher of the same name
+	V   string `json:"v"`
+	A   string `json:"a"`
+	Enh bool   `json:"enh"`
 }
 
 type roCfg struct {
@@ -65,6 +74,7 @@ type roCfg struct {
 	FragMs int    `json:"fragMs"`
 	Rtsp   bool   `json:"rtsp"`
 	Enh    bool   `json:"enh"` // H.265 in enhanced-RTMP form (ext header + fourcc hvc1)
+	Rep    bool   `json:"rep"` // republish epochs (C16): PubLeave / PubArrive steps, no stand-alone RTSP remuxer
 }
 
 type roScenario struct {
@@ -615,11 +625,14 @@ type roRtspObs struct {
 	g    *logic.Group
 	desc chan struct{}
 	play chan struct{}
+	sub  *rtsp.SubSession
+	imm  bool // DESCRIBE found a session description: the answer is written as soon as the callback returns
 }
 
 func (o *roRtspObs) OnNewRtspPubSession(session *rtsp.PubSession) error { return base.ErrRtsp }
 func (o *roRtspObs) OnNewRtspSubSessionDescribe(session *rtsp.SubSession) (bool, []byte) {
 	ok, sdp := o.g.HandleNewRtspSubSessionDescribe(session)
+	o.sub, o.imm = session, sdp != nil
 	o.desc <- struct{}{}
 	return ok, sdp
 }
@@ -639,6 +652,7 @@ type roRtspConsumer struct {
 	state int // 1 = DESCRIBE sent, 2 = playing, 9 = failed
 	cseq  int
 	sdps  []M
+	pend  []string // text responses already taken off the connection
 	pkts  []roRawPkt
 	chTr  map[int]string
 	hintV int
@@ -723,7 +737,8 @@ func (c *roRtspConsumer) advance() {
 	if c.state != 1 {
 		return
 	}
-	rs := c.parse()
+	rs := append(c.pend, c.parse()...)
+	c.pend = nil
 	if len(rs) == 0 {
 		return // DESCRIBE is answered when the stream has a session description
 	}
@@ -786,6 +801,68 @@ func (r *roRtpSide) feed(msg base.RtmpMsg) {
 	r.rm.FeedRtmpMsg(msg)
 }
 
+// roReadHls reads the live playlist and demultiplexes the listed segments in playlist order.  With known != nil
+// (republish epochs) the segments that were listed when an earlier publisher left are only counted ("old") and
+// remembered, every segment end is a quiescent point, and "seg" gives for every frame the segment it was read from.
+func roReadHls(w *roWorld, hlsRoot, stream string, known map[string]bool) M {
+	op := hls.PathStrategy.GetMuxerOutPath(hlsRoot, stream)
+	pl, err := os.ReadFile(hls.PathStrategy.GetLiveM3u8FileName(op, stream))
+	dm := proj.NewTsDemux()
+	segs, old, partial := 0, 0, 0
+	seg := []int{}
+	ended := false
+	var taken []*proj.EsFrame
+	if err == nil {
+		for _, line := range strings.Split(string(pl), "\n") {
+			line = strings.TrimSpace(line)
+			if line == "#EXT-X-ENDLIST" {
+				ended = true
+			}
+			if line == "" || strings.HasPrefix(line, "#") {
+				continue
+			}
+			if known != nil && known[line] {
+				old++
+				continue
+			}
+			b, err := os.ReadFile(hls.PathStrategy.GetTsFileNameWithPath(op, line))
+			if err != nil {
+				dm.Bad = append(dm.Bad, "missing_segment")
+				continue
+			}
+			segs++
+			partial += len(b) % 188
+			dm.Feed(b[:len(b)/188*188])
+			if known != nil {
+				known[line] = true
+				dm.Flush()
+				fs := dm.Take()
+				for range fs {
+					seg = append(seg, segs)
+				}
+				taken = append(taken, fs...)
+			}
+		}
+	}
+	dm.Flush()
+	if known != nil {
+		dm.Out = append(taken, dm.Out...)
+		for len(seg) < len(dm.Out) {
+			seg = append(seg, segs)
+		}
+	}
+	hv, ha := 0, 0
+	hl := roFrames(w, dm, &hv, &ha, partial)
+	hl["segs"] = segs
+	hl["on"] = true
+	if known != nil {
+		hl["seg"] = seg
+		hl["old"] = old
+		hl["ended"] = ended
+	}
+	return hl
+}
+
 func runRemuxOutScenario(sc *roScenario, tw *TraceWriter, tmp string) {
 	w := &roWorld{v: sc.Cfg.V, a: sc.Cfg.A, maxVer: 1, enh: sc.Cfg.Enh}
 	cfg := &logic.Config{}
@@ -807,9 +884,10 @@ func runRemuxOutScenario(sc *roScenario, tw *TraceWriter, tmp string) {
 	}
 	g := logic.NewGroup("live", stream, cfg, logic.GroupOption{}, groupObserver{})
 	var rg *roRtspConsumer
-	tw.Emit(M{"ev": "reset", "sc": sc.Sc, "v": sc.Cfg.V, "a": sc.Cfg.A, "hls": sc.Cfg.Hls, "rtsp": sc.Cfg.Rtsp, "gop": sc.Cfg.Gop})
+	tw.Emit(M{"ev": "reset", "sc": sc.Sc, "v": sc.Cfg.V, "a": sc.Cfg.A, "hls": sc.Cfg.Hls, "rtsp": sc.Cfg.Rtsp, "gop": sc.Cfg.Gop,
+		"fragMs": sc.Cfg.FragMs, "rep": sc.Cfg.Rep})
 	var rs *roRtpSide
-	if sc.Cfg.Rtsp {
+	if sc.Cfg.Rtsp && !sc.Cfg.Rep {
 		rs = &roRtpSide{w: w, vpt: -1, apt: -1}
 		rs.rm = remux.NewRtmp2RtspRemuxer(func(ctx sdp.LogicContext) {
 			f := roSdpFacts(w, ctx.RawSdp)
@@ -828,6 +906,13 @@ func runRemuxOutScenario(sc *roScenario, tw *TraceWriter, tmp string) {
 		tw.Emit(M{"ev": "error", "what": err.Error()})
 		return
 	}
+	live := true                // a publisher is attached
+	listed := map[string]bool{} // HLS segments listed when an earlier publisher left
+	noHls := func() M {
+		return M{"frames": []M{}, "pat": 0, "pmt": 0, "streams": [][2]int{}, "bad": []string{}, "segs": 0, "on": false,
+			"seg": []int{}, "old": 0, "ended": false}
+	}
+	noRtp := func() M { return M{"sdp": []M{}, "frames": []M{}, "panic": "", "late": true} }
 	cons := []*roTsConsumer{}
 	drainAll := func() M {
 		o := M{}
@@ -865,6 +950,12 @@ func runRemuxOutScenario(sc *roScenario, tw *TraceWriter, tmp string) {
 				rg.request("DESCRIBE", rg.url, "Accept: application/sdp\r\n")
 				if !roWait(rg.obs.desc) {
 					rg.fail("describe_not_processed")
+				} else if rg.obs.imm {
+					// the answer is on its way (written by the command loop right after the callback): take it now, so
+					// that the point at which this subscriber starts does not depend on goroutine scheduling
+					if r, ok := rg.response(); ok {
+						rg.pend = append(rg.pend, r)
+					}
 				}
 				rg.advance()
 			}
@@ -906,55 +997,71 @@ func runRemuxOutScenario(sc *roScenario, tw *TraceWriter, tmp string) {
 			ev := M{"ev": "Pub", "m": m, "ts": roT3(st.Ts), "panic": ""}
 			ev["panic"] = protect(func() { g.OnReadRtmpAvMsg(msg) })
 			ev["out"] = drainAll()
-			if rs != nil {
-				rs.feed(msg)
-				sd := rs.sdps
-				if sd == nil {
-					sd = []M{}
+			if sc.Cfg.Rtsp {
+				rt := M{}
+				if rs != nil {
+					rs.feed(msg)
+					sd := rs.sdps
+					if sd == nil {
+						sd = []M{}
+					}
+					rs.sdps = nil
+					rt["ra"] = M{"sdp": sd, "frames": rs.take(), "panic": rs.panicked, "late": false}
 				}
-				rs.sdps = nil
-				rt := M{"ra": M{"sdp": sd, "frames": rs.take(), "panic": rs.panicked, "late": false}}
 				if rg != nil {
 					rg.advance()
 					rt["rg"] = rg.take()
 				} else {
-					rt["rg"] = M{"sdp": []M{}, "frames": []M{}, "panic": "", "late": true}
+					rt["rg"] = noRtp()
 				}
 				ev["rtp"] = rt
 			}
 			tw.Emit(ev)
+		case "PubLeave":
+			// the publisher of this epoch leaves (Group.delIn); subscribers stay, the Group survives
+			ev := M{"ev": "PubLeave", "panic": ""}
+			ev["panic"] = protect(func() { g.DelRtmpPubSession(pub) })
+			live = false
+			ev["out"] = drainAll()
+			if sc.Cfg.Hls {
+				ev["hls"] = roReadHls(w, hlsRoot, stream, listed)
+			} else {
+				ev["hls"] = noHls()
+			}
+			rt := M{"rg": noRtp()}
+			if rg != nil {
+				// the RTSP subscriber belongs to the epoch: it is judged up to here and leaves with the publisher
+				rg.advance()
+				rt["rg"] = rg.take()
+				if rg.obs.sub != nil {
+					g.DelRtspSubSession(rg.obs.sub)
+				}
+				rg.conn.Close()
+				rg = nil
+			}
+			ev["rtp"] = rt
+			tw.Emit(ev)
+		case "PubArrive":
+			// the next publisher of the same name, with its own tracks
+			w.v, w.a, w.enh = st.V, st.A, st.Enh
+			pub = rtmp.NewServerSession(nullObserver{}, NewMemConn("pub"))
+			es := ""
+			if err := g.AddRtmpPubSession(pub); err != nil {
+				es = err.Error()
+			} else {
+				live = true
+			}
+			for _, c := range cons {
+				c.dm.NewEpoch()
+			}
+			tw.Emit(M{"ev": "PubArrive", "v": st.V, "a": st.A, "err": es})
 		case "End":
 			ev := M{"ev": "End", "panic": ""}
 			ev["panic"] = protect(func() { g.DelRtmpPubSession(pub) })
 			ev["out"] = drainAll()
 			hl := M{"frames": []M{}, "pat": 0, "pmt": 0, "streams": [][2]int{}, "bad": []string{}, "segs": 0, "on": false}
 			if sc.Cfg.Hls {
-				op := hls.PathStrategy.GetMuxerOutPath(hlsRoot, stream)
-				pl, err := os.ReadFile(hls.PathStrategy.GetLiveM3u8FileName(op, stream))
-				dm := proj.NewTsDemux()
-				segs := 0
-				partial := 0
-				if err == nil {
-					for _, line := range strings.Split(string(pl), "\n") {
-						line = strings.TrimSpace(line)
-						if line == "" || strings.HasPrefix(line, "#") {
-							continue
-						}
-						b, err := os.ReadFile(hls.PathStrategy.GetTsFileNameWithPath(op, line))
-						if err != nil {
-							dm.Bad = append(dm.Bad, "missing_segment")
-							continue
-						}
-						segs++
-						partial += len(b) % 188
-						dm.Feed(b[:len(b)/188*188])
-					}
-				}
-				dm.Flush()
-				hv, ha := 0, 0
-				hl = roFrames(w, dm, &hv, &ha, partial)
-				hl["segs"] = segs
-				hl["on"] = true
+				hl = roReadHls(w, hlsRoot, stream, nil)
 				os.RemoveAll(hlsRoot)
 			}
 			ev["hls"] = hl
@@ -968,5 +1075,19 @@ func runRemuxOutScenario(sc *roScenario, tw *TraceWriter, tmp string) {
 			return
 		}
 	}
-	g.DelRtmpPubSession(pub)
+	if live {
+		g.DelRtmpPubSession(pub)
+	}
+	if sc.Cfg.Rep {
+		for _, c := range cons {
+			g.DelHttptsSubSession(c.ss)
+		}
+		if rg != nil {
+			if rg.obs.sub != nil {
+				g.DelRtspSubSession(rg.obs.sub)
+			}
+			rg.conn.Close()
+		}
+		os.RemoveAll(hlsRoot)
+	}
 }
